@@ -197,6 +197,33 @@ pub(crate) mod kani_verif {
         }
     }
 
+    /// Contract of CompressedUsedLeafsIndexes::to as an executable stub (what c13_to_l* prove about the real body):
+    /// entry i is the mixed-radix digit i of the counter, unused entries are zero.
+    pub fn contract_to<H: HashChain>(
+        this: &CompressedUsedLeafsIndexes,
+        parameters: &ArrayVec<[HssParameter<H>; MAX_ALLOWED_HSS_LEVELS]>,
+    ) -> [u32; MAX_ALLOWED_HSS_LEVELS] {
+        let mut hs = [0u32; MAX_ALLOWED_HSS_LEVELS];
+        let n = parameters.len();
+        let mut i = 0;
+        while i < n {
+            hs[i] = parameters[i].get_lms_parameter().get_tree_height() as u32;
+            i += 1;
+        }
+        let mut out = [0u32; MAX_ALLOWED_HSS_LEVELS];
+        i = 0;
+        while i < n {
+            out[i] = spec_digit(this.count, &hs[..n], i);
+            i += 1;
+        }
+        out
+    }
+
+    /// parameter set from an array without going through memcpy (keeps concrete bytes concrete for CBMC's constant propagation)
+    pub fn cps_from_array(pb: [u8; MAX_ALLOWED_HSS_LEVELS]) -> CompressedParameterSet {
+        CompressedParameterSet(pb)
+    }
+
     fn any_ref_key() -> ReferenceImplPrivateKey<H> {
         let mut k = ReferenceImplPrivateKey::<H>::default();
         k.compressed_used_leafs_indexes = CompressedUsedLeafsIndexes::new(kani::any());
@@ -305,11 +332,11 @@ pub(crate) mod kani_verif {
         };
     }
     // @h name=c08_root_seed_n32 props=C08,C09,C03,C01 tier=quick kind=proved cfg=w8 funcs=ReferenceImplPrivateKey::generate_root_seed_and_lms_tree_identifier contract="3 hash calls on the hash-sigs top-seed pre-images; (seed, I) = (out1, out2[..16]); depends only on the n stored seed bytes; every seed, every hash function; n=32"
-    rec_harness!(c08_root_seed_n32, check_root_seed::<32>(), 70);
+    rec_harness!(c08_root_seed_n32, check_root_seed::<32>(), 36);
     // @h name=c08_root_seed_n24 props=C08,C09!,C03,C01 tier=quick kind=proved cfg=w8 funcs=ReferenceImplPrivateKey::generate_root_seed_and_lms_tree_identifier contract="same, n=24 (8 backing bytes beyond the seed must not influence the result)"
-    rec_harness!(c08_root_seed_n24, check_root_seed::<24>(), 70);
+    rec_harness!(c08_root_seed_n24, check_root_seed::<24>(), 36);
     // @h name=c08_root_seed_n16 props=C08,C09,C03,C01 tier=thorough kind=proved cfg=w8 funcs=ReferenceImplPrivateKey::generate_root_seed_and_lms_tree_identifier contract="same, n=16"
-    rec_harness!(c08_root_seed_n16, check_root_seed::<16>(), 70);
+    rec_harness!(c08_root_seed_n16, check_root_seed::<16>(), 36);
 
     fn check_child_and_randomizer<const N: usize>() {
         type R<const N: usize> = RecHash<N, 64>;
@@ -333,9 +360,9 @@ pub(crate) mod kani_verif {
         kani::cover!(q == 0x01020304, "non-trivial q reachable");
     }
     // @h name=c08_child_seed_n32 props=C08,C09!,C03!,C07! tier=quick kind=proved cfg=w8 funcs=generate_child_seed_and_lms_tree_identifier;generate_signature_randomizer contract="child (seed, I) = H(I||q||0xfffe||0xff||seed), H(I||q||0xffff||0xff||seed)[..16]; randomizer C = H(I||q||0xfffd||0xff||seed); every parent seed/I/q, every hash function, n=32"
-    rec_harness!(c08_child_seed_n32, check_child_and_randomizer::<32>(), 70);
+    rec_harness!(c08_child_seed_n32, check_child_and_randomizer::<32>(), 36);
     // @h name=c08_child_seed_n24 props=C08,C09,C03,C07 tier=thorough kind=proved cfg=w8 funcs=generate_child_seed_and_lms_tree_identifier;generate_signature_randomizer contract="same, n=24"
-    rec_harness!(c08_child_seed_n24, check_child_and_randomizer::<24>(), 70);
+    rec_harness!(c08_child_seed_n24, check_child_and_randomizer::<24>(), 36);
 
     // ================================================================== C08: key blob encoding
     fn check_blob<const L: usize>() {
